@@ -440,6 +440,10 @@ def job(cfg):
     return job_spline(cfg) if cfg["type"] == "spline" else job_module(cfg)
 
 
+# thorough-tier cases whose identity is a polynomial of > 50 000 terms that nlsat does not finish in 600 s (measured)
+BUGHUNT_CASES = ("CompositeCDFTransform/Sigmoid+RQ",)
+
+
 def configs(tier):
     t = 60 if tier == "quick" else 600
     cfgs = []
@@ -451,11 +455,11 @@ def configs(tier):
                     continue
                 if box == "unit" and tier == "quick" and K == 1:
                     continue
-                cfgs.append({"type": "spline", "kind": kind, "K": K, "mode": mode, "box": box, "timeout": t})
+                cfgs.append({"type": "spline", "kind": kind, "K": K, "mode": mode, "box": box, "timeout": t if K < 3 else 300, "bughunt": K == 3 and kind != "linear"})
     for kind in ("rq", "quadratic", "cubic"):
         cfgs.append({"type": "spline", "kind": kind, "K": 2, "mode": "box", "box": "sym", "floors": True, "timeout": t})
     for c in CS.cases_for(tier, with_history=True):
-        cfgs.append({"type": "module", "case": c.name, "timeout": t, "nval": 4})
+        cfgs.append({"type": "module", "case": c.name, "timeout": t, "nval": 4, "bughunt": c.name in BUGHUNT_CASES})
     return cfgs
 
 
